@@ -65,7 +65,7 @@ func TestRules(t *testing.T) {
 		{"{ x: a ...F } fragment F on Q { ...G } fragment G on Q { x: b }", OverlappingFieldsCanBeMerged},
 		{"{ o { k: x } ...F } fragment F on Q { o { ...G } } fragment G on O { k: y }", OverlappingFieldsCanBeMerged},
 		{"{ u { ... on O { k: y } ... on P { k: y } } }", OverlappingFieldsCanBeMerged}, // Int vs String
-		{"{ u { ... on O { k: x } ... on P { k: y } } }", ""},                          // different names, exclusive parents, same shape
+		{"{ u { ... on O { k: x } ... on P { k: y } } }", ""},                           // different names, exclusive parents, same shape
 		{"{ i { ... on O { k: x } ... on I { k: __typename } } }", OverlappingFieldsCanBeMerged},
 		{"{ u { ... on O { k: y } ... on P { k: __typename } } }", OverlappingFieldsCanBeMerged},
 		{"{ o { ... on P { x } } }", PossibleFragmentSpreads},
